@@ -318,6 +318,21 @@ type session struct {
 	classes               map[string]struct{}
 	mutations             int
 	reopens               int
+	// quiet: nothing is reported to the run (shrinking); failures are always collected in fails
+	quiet bool
+	fails []failRec
+}
+
+// failRec is one oracle failure of a session: what failed, and after how many request lines.
+type failRec struct {
+	oracle, op, flavour string
+	line                int
+}
+
+func (ss *session) count(k string) {
+	if !ss.quiet {
+		ss.r.Count(k)
+	}
 }
 
 func newSession(r *hx.Run) *session {
@@ -328,6 +343,10 @@ func (ss *session) fail(oracle, op string, in *inst, detail string) {
 	fl := ""
 	if in != nil {
 		fl = in.flavour
+	}
+	ss.fails = append(ss.fails, failRec{oracle, op, fl, len(ss.lines)})
+	if ss.quiet {
+		return
 	}
 	ss.r.Fail(oracle, fmt.Sprintf("%s; ops=%s", detail, strings.Join(ss.lines, " | ")),
 		map[string]string{"oracle": oracle, "op": op, "flavour": fl})
@@ -479,7 +498,7 @@ func (ss *session) exec(op string) string {
 		in := &inst{flavour: f[2], store: view, db: db, realm: clone(realm), want: map[string][]byte{}, committed: map[string][]byte{}}
 		in.reopen()
 		ss.insts[idx] = in
-		ss.r.Count("instance-over-realm-view")
+		ss.count("instance-over-realm-view")
 
 		return "ok"
 	}
@@ -507,7 +526,7 @@ func (ss *session) execOn(in *inst, idx int, f []string) string {
 		switch {
 		case f[0] == "set" && len(f) == 4 && in.isMap():
 			kb, v = hx.UnHex(f[2]), parseVal(f[3])
-			ss.r.Count("value:" + valKind(f[3]))
+			ss.count("value:" + valKind(f[3]))
 			aerr = in.m.Set(hkey(kb), v)
 		case f[0] == "add" && len(f) == 3 && in.flavour == "set":
 			kb, v = hx.UnHex(f[2]), hval{}
@@ -611,7 +630,7 @@ func (ss *session) execOn(in *inst, idx int, f []string) string {
 				in.want[string(kb)] = clone(v)
 				in.muts++
 				ss.mutations++
-				ss.r.Count("rmw:written-back:" + in.flavour)
+				ss.count("rmw:written-back:" + in.flavour)
 			}
 		}
 		if check && ans != "ok" {
@@ -840,17 +859,17 @@ func (ss *session) execOn(in *inst, idx int, f []string) string {
 					}
 				}
 			}
-			ss.r.Count("root:" + repeat)
+			ss.count("root:" + repeat)
 			ss.classes[c] = struct{}{}
 			switch l := maxLCP(in.want); {
 			case l >= 16:
-				ss.r.Count("root-point:keys-share>=16bits")
+				ss.count("root-point:keys-share>=16bits")
 			case l >= 8:
-				ss.r.Count("root-point:keys-share-8..15bits")
+				ss.count("root-point:keys-share-8..15bits")
 			case l >= 0:
-				ss.r.Count("root-point:keys-share<8bits")
+				ss.count("root-point:keys-share<8bits")
 			default:
-				ss.r.Count("root-point:fewer-than-2-keys")
+				ss.count("root-point:fewer-than-2-keys")
 			}
 		}
 		ss.points = append(ss.points, point{root: rt, contents: c, inst: idx, muts: in.muts, tainted: in.tainted})
@@ -861,12 +880,12 @@ func (ss *session) execOn(in *inst, idx int, f []string) string {
 		if !clean || in.tainted {
 			// the code is followed (and compared with the Lean model), the property is silent
 			in.tainted = true
-			ss.r.Count("reopen:dirty")
+			ss.count("reopen:dirty")
 			in.reopen()
 
 			return "ok"
 		}
-		ss.r.Count("reopen:at-commit-point")
+		ss.count("reopen:at-commit-point")
 		ss.reopens++
 		rt0, n0 := in.root(), in.size()
 		ps0, _ := in.stream(0)
@@ -937,13 +956,26 @@ func (ss *session) checkProbe(in *inst, op string) {
 	}
 }
 
-// checkStream: a completed Stream is exactly the plain map; an interrupted one is a duplicate-free
-// part of it and the interruption has a reason.
+// rawOrder reads the raw keys of the instance from the database below the view, in the store's order.
+func (in *inst) rawOrder() [][]byte {
+	var ks [][]byte
+	_ = in.db.IterateKeys(append(clone(in.realm), 0), func(key kvstore.Key) bool {
+		ks = append(ks, clone(key[len(in.realm)+1:]))
+
+		return true
+	})
+
+	return ks
+}
+
+// checkStream: Stream hands the pairs of the plain map to the callback, each once, in the order in which
+// the store iterates the raw keys; it ends with the first value that does not decode (error, that pair
+// not delivered), with the callback's error on its stop-th call (that pair delivered), or after all pairs.
 func (ss *session) checkStream(in *inst, ps []pair, end string, stop int) {
 	seen := map[string]struct{}{}
 	for _, p := range ps {
 		w, has := in.want[string(p.k)]
-		if !has || !bytes.Equal(w, p.v) {
+		if !has || !bytes.Equal(w, p.v) && in.isMap() {
 			ss.fail("stream-agrees", "stream", in, fmt.Sprintf("Stream delivered %x=%x, the plain map says %x (present=%v)", p.k, p.v, w, has))
 		}
 		if _, dup := seen[string(p.k)]; dup {
@@ -951,27 +983,35 @@ func (ss *session) checkStream(in *inst, ps []pair, end string, stop int) {
 		}
 		seen[string(p.k)] = struct{}{}
 	}
-	undecodable := false
-	for _, w := range in.want {
-		if len(w) > 0 && w[0] == 0xDD {
-			undecodable = true
+	var expKeys []string
+	expEnd := "ok"
+	for _, k := range in.rawOrder() {
+		w, has := in.want[string(k)]
+		if !has {
+			continue // reported by the layout oracle
+		}
+		if in.isMap() && len(w) > 0 && w[0] == 0xDD {
+			expEnd = "err-dec"
+
+			break
+		}
+		expKeys = append(expKeys, hx.Hex(k))
+		if len(expKeys) == stop {
+			expEnd = "err-cb"
+
+			break
 		}
 	}
-	switch end {
-	case "ok":
-		if len(ps) != len(in.want) {
-			ss.fail("stream-agrees", "stream", in, fmt.Sprintf("Stream completed with %d pairs, the plain map holds %d", len(ps), len(in.want)))
-		}
-	case "err-cb":
-		if stop <= 0 || len(ps) != stop {
-			ss.fail("stream-agrees", "stream", in, fmt.Sprintf("Stream reported a callback error after %d pairs, the callback fails on call %d", len(ps), stop))
-		}
-	case "err-dec":
-		if !undecodable {
-			ss.fail("stream-agrees", "stream", in, "Stream reported a decoding error but every stored value decodes")
-		}
-	default:
-		ss.fail("stream-agrees", "stream", in, "Stream failed")
+	got := make([]string, len(ps))
+	for i, p := range ps {
+		got[i] = hx.Hex(p.k)
+	}
+	if end != expEnd || strings.Join(got, " ") != strings.Join(expKeys, " ") {
+		ss.fail("stream-agrees", "stream", in, fmt.Sprintf("Stream (callback failing on call %d) delivered [%s] and ended %s; the plain map in the store's key order gives [%s] and %s",
+			stop, strings.Join(got, " "), end, strings.Join(expKeys, " "), expEnd))
+	}
+	if expEnd == "ok" && len(expKeys) != len(in.want) {
+		ss.fail("stream-agrees", "stream", in, fmt.Sprintf("the raw-key mirror holds %d of the %d keys of the plain map", len(expKeys), len(in.want)))
 	}
 }
 
@@ -1325,7 +1365,87 @@ func genSession(rng *hx.Rng, clusters []mine.Cluster, nOps int) []string {
 	return ops
 }
 
+// quietRun executes a session without reporting anything and returns its oracle failures.
+func quietRun(r *hx.Run, ops []string) []failRec {
+	ss := newSession(r)
+	ss.quiet = true
+	for _, op := range ops {
+		ss.exec(op)
+	}
+
+	return ss.fails
+}
+
+func sameFail(a, b failRec) bool { return a.oracle == b.oracle && a.op == b.op && a.flavour == b.flavour }
+
+func hasFail(fs []failRec, t failRec) bool {
+	for _, f := range fs {
+		if sameFail(f, t) {
+			return true
+		}
+	}
+
+	return false
+}
+
+// shrink returns a shorter session that still fails the oracle of `t` (same oracle, same kind of request,
+// same flavour): the lines after the failing one are dropped, then single lines are removed, from the
+// back to the front, as long as the failure stays.
+func shrink(r *hx.Run, ops []string, t failRec) []string {
+	cur := append([]string(nil), ops[:t.line]...)
+	for pass := 0; pass < 3; pass++ {
+		changed := false
+		for i := len(cur) - 2; i >= 0; i-- {
+			cand := append(append([]string(nil), cur[:i]...), cur[i+1:]...)
+			if hasFail(quietRun(r, cand), t) {
+				cur, changed = cand, true
+			}
+		}
+		if !changed {
+			break
+		}
+	}
+	// the last failing line may now come earlier
+	if fs := quietRun(r, cur); len(fs) > 0 {
+		for _, f := range fs {
+			if sameFail(f, t) {
+				cur = cur[:f.line]
+
+				break
+			}
+		}
+	}
+
+	return cur
+}
+
+var shrunkSigs = map[string]bool{}
+
+// runCase: a session is first executed quietly; for every kind of oracle failure (oracle, request kind,
+// flavour) not met before, the shrunk session is emitted as a case of its own *before* the session
+// itself, so that the first finding of a signature — the one the replay is taken from — comes with a
+// short failing input.
 func runCase(r *hx.Run, sub uint64, ops []string) {
+	if r.ReplayLines() == nil {
+		for _, f := range quietRun(r, ops) {
+			sig := f.oracle + "/" + f.op + "/" + f.flavour
+			if shrunkSigs[sig] || len(shrunkSigs) >= 60 {
+				continue
+			}
+			shrunkSigs[sig] = true
+			small := shrink(r, ops, f)
+			r.Count("shrunk-failing-sessions")
+			r.CountN("shrunk:lines-before", len(ops))
+			r.CountN("shrunk:lines-after", len(small))
+			if len(small) < len(ops) {
+				emitCase(r, sub, small)
+			}
+		}
+	}
+	emitCase(r, sub, ops)
+}
+
+func emitCase(r *hx.Run, sub uint64, ops []string) {
 	r.Case(sub)
 	ss := newSession(r)
 	for _, op := range ops {
